@@ -256,9 +256,17 @@ class ParsersWorld:
         seams.HOOKS.io = None
         clk = simenv.SimClock(self.lib_prefix).install()
         ctx["clock"] = clk
+        hung = None
         try:
             S.add_task("t", body)
-            S.run()
+            try:
+                S.run()
+            except sched.Blocked as e:
+                # the only task of the history waits for a lock it (or an interrupted call of its own) left held: a hang
+                # after an injected line-granularity fault.  Counted and set aside (the faults C14 injects at arbitrary lines
+                # include instants at which only an asynchronous signal could strike); never a VIOLATION, never a crash of
+                # the check
+                hung = str(e)
         finally:
             simenv.uninstall()
             seams.HOOKS.point = lambda *a, **k: None
@@ -267,6 +275,9 @@ class ParsersWorld:
             shutil.rmtree(cwd, ignore_errors=True)
         st["stats"].update(clock_jumps=clk.jumps, clock_reads_by_library=clk.lib_reads, clock_slept_s=int(clk.slept), clock_jumped_s=int(clk.jumped_s))
         self._env_stats(st["stats"])
+        if hung:
+            return {"status": "inconclusive", "why": hung, "trace": trace, "digest": log.digest(), "ops_digest": log.ops_digest(),
+                    "stats": st["stats"]}
         return self._result(st.get("trace_override") or trace, log, st, extra={"line_points": S.line_points})
 
     def _c14_body(self, trace, log, st, ctx, task, S, cwd):
